@@ -133,27 +133,38 @@ def update_forms(ctx, d1):
         before = p.events[:li]
         inside = [e for e in p.events[li:] if e.depth >= 1]
         lp0 = loop_ev[0].stmt
-        # zip(extents, self._stoichiometry) in either order: the extents are the argument that is a local
+        # zip(extents, self._stoichiometry) in either order: the extents are the other argument -- a local computed before the loop, or the
+        # expression itself (zip evaluates its arguments once, before the first iteration)
         ext = None
+        ext_node = None
         if isinstance(lp0.iter, ast.Call) and src(lp0.iter.func) == 'zip' and len(lp0.iter.args) == 2:
-            locs_ = [a_ for a_ in lp0.iter.args if isinstance(a_, ast.Name)]
-            if len(locs_) == 1:
-                ext = locs_[0].id
-        reacted = [e for e in before if e.kind == 'assign' and e.target == ext]
-        okk = bool(reacted)
+            others_ = [a_ for a_ in lp0.iter.args if src(a_) != 'self._stoichiometry']
+            if len(others_) == 1:
+                ext_node = others_[0]
+                ext = src(ext_node)
+        from ..resolve import resolved, path_defs
+        okk = ext_node is not None
         why = ''
         if okk:
-            txt = reacted[0].value.pretty()
+            defs_ = path_defs(p, loop_ev[0])
+            rv = resolved(ext_node, defs_, keep={m})
+            try:
+                ext_form = Lin(dict(p.lin.env)).form(rv) if not isinstance(ext_node, ast.Name) else \
+                    [e for e in before if e.kind == 'assign' and e.target == ext_node.id][-1].value
+            except Exception:
+                ext_form = None
+            if ext_form is None:
+                okk, why = False, 'extents are not computed before the loop'
+        else:
+            why = 'extents are not computed before the loop'
+        if okk:
+            txt = ext_form.pretty()
             # extent = X_k * feed[r_k] : uses self._X and a gather of material over self._reactant_index
-            from ..resolve import resolved, path_defs
-            rv = resolved(reacted[0].stmt.value, path_defs(p, reacted[0]), keep={m})
             comp = [n for n in ast.walk(rv) if isinstance(n, ast.ListComp)]
             gather = comp and src(comp[0].elt) == '%s[%s]' % (m, comp[0].generators[0].target.id) \
                 and src(comp[0].generators[0].iter) == 'self._reactant_index'
-            if not (gather and 'self._X' in txt and reacted[0].value.is_monomial()):
-                okk, why = False, 'extents are not X*feed[reactants] (%s)' % src(reacted[0].stmt)
-        else:
-            why = 'extents are not computed before the loop'
+            if not (gather and 'self._X' in txt and ext_form.is_monomial()):
+                okk, why = False, 'extents are not X*feed[reactants] (%s)' % src(rv)
         # loop pairs extents with stoichiometry rows
         lp = loop_ev[0].stmt
         if okk and not (isinstance(lp.iter, ast.Call) and src(lp.iter.func) == 'zip'
